@@ -209,7 +209,12 @@ func (or *ObjectRegistry) applyConfig(config map[string]string) {
 			continue
 		}
 
-		if prevEntity != nil {
+		if prevEntity != nil && prevEntity.Spec().Kind() != entity.Spec().Kind() {
+			// A change of kind is the deletion of the old object
+			// plus the creation of the new one, never an update.
+			deleted[name] = prevEntity
+			created[name] = entity
+		} else if prevEntity != nil {
 			updated[name] = entity
 		} else {
 			created[name] = entity
